@@ -199,6 +199,7 @@ struct E1 : Engine {
 		int n = 1 + r.below(3); for(int i=0;i<n;i++) a.push((int)(1 + r.below(len + 1))); return a; }
 	static std::string rnd_token(simk::Rng &r,int minl,int maxl){ static const char al[] = "abcdefghijklmnopqrstuvwxyzABCDEFGHIJKLMNOPQRSTUVWXYZ0123456789-_.~"; int n = minl + r.below(maxl-minl+1); std::string s; for(int i=0;i<n;i++) s += al[r.below(sizeof(al)-1)]; return s; }
 	static std::string rnd_urlenc(simk::Rng &r,int maxl){ std::string s; int n = r.below(maxl+1); for(int i=0;i<n;i++){ unsigned x = r.below(10); if(x < 6) s += "abcXYZ019-_.~"[r.below(13)]; else if(x < 8){ char b[8]; snprintf(b,sizeof(b),"%%%02X",(unsigned)(1 + r.below(254))); s += b; } else if(x == 8) s += '+'; else s += "%2F"; } return s; }
+	static size_t &gen_limit(){ static size_t v = 0; return v; }   // content limit (bytes) of the run being generated, 0 = default
 	static J gen_req(simk::Rng &r,const std::string &prop,bool thorough,bool async_mount,int idx){
 		J q = J::obj();
 		static const char *methods[] = {"GET","GET","POST","POST","PUT","DELETE","OPTIONS","X-Custom.Method"};
@@ -218,6 +219,7 @@ struct E1 : Engine {
 			for(int i=0;i<np;i++){ J pt = J::obj(); pt["name"] = rnd_token(r,1,10) + std::to_string(i); pt["quoted"] = (int)(r.below(4) != 0); bool file = r.below(2);
 				if(file){ pt["filename"] = r.below(5) ? rnd_token(r,1,12) + ".bin" : std::string(""); pt["has_filename"] = 1; static const char *cts[] = {"application/octet-stream","text/plain","image/png","text/plain; charset=utf-8"}; pt["ctype"] = cts[r.below(4)]; }
 				unsigned x = r.below(10); size_t len = x < 5 ? r.below(200) : x < 8 ? r.below(5000) : r.below(budget); if(len > budget) len = budget; budget -= len; if(!file && len > 3000) len = r.below(3000);
+				if(!file && gen_limit() && gen_limit() <= 65536 && r.below(3) == 0){ len = gen_limit() - 1 + r.below(3); }   // a field exactly at / one off its size limit
 				pt["len"] = (long long)len; pt["seed"] = (long long)r.below(1000000); pt["fill"] = (int)(r.below(3) == 0 ? 2 : r.below(2)); pt["lookalike"] = (int)r.below(4);
 				parts.push(pt); }
 			q["parts"] = parts;
@@ -265,7 +267,7 @@ struct E1 : Engine {
 		J cfg = J::obj(); cfg["reactor"] = (int)r.below(3); cfg["worker_threads"] = 1 + (int)r.below(3);
 		cfg["output_buffer_size"] = bufs[r.below(6)]; cfg["async_output_buffer_size"] = bufs[r.below(6)]; cfg["input_buffer_size"] = bufs[r.below(6)];
 		cfg["gzip"] = (int)r.below(2); cfg["gzip_level"] = (int)r.below(10) - 1; cfg["gzip_buffer"] = r.below(2) ? 0 : bufs[1 + r.below(5)];
-		cfg["http_timeout"] = 10 + (int)r.below(20); if(prop == "C12" && r.below(2)){ static const int lk[] = {1,4,16,64,2048}; cfg["content_limit_kb"] = lk[r.below(5)]; cfg["multipart_limit_kb"] = lk[r.below(5)]; } { static const int fm[] = {0,1,100,4096,131072}; cfg["file_in_memory_limit"] = fm[r.below(5)]; }
+		cfg["http_timeout"] = 10 + (int)r.below(20); gen_limit() = 0; if(prop == "C12" && r.below(2)){ static const int lk[] = {1,4,16,64,2048}; cfg["content_limit_kb"] = lk[r.below(5)]; cfg["multipart_limit_kb"] = std::max<int>(lk[r.below(5)],(int)cfg.geti("content_limit_kb")*2); gen_limit() = (size_t)cfg.geti("content_limit_kb") * 1024; } { static const int fm[] = {0,1,100,4096,131072}; cfg["file_in_memory_limit"] = fm[r.below(5)]; }
 		p["cfg"] = cfg;
 		bool faults = r.below(3) == 0;
 		p["p_short_read"] = r.below(2) ? (int)r.below(500) : 0; p["p_short_write"] = r.below(2) ? (int)r.below(500) : 0; p["p_eintr"] = faults ? (int)r.below(40) : 0; p["p_spurious"] = faults ? (int)r.below(80) : 0;
